@@ -186,6 +186,14 @@ theorem never_propagate_isd_loop (loc next : IA) (hops : List IA) (hnz : next â‰
     isdLoop (hops ++ [loc] ++ [next]) = false :=
   (never_propagate_loop loc next false hops hnz h).2 rfl
 
+/-- the same in plain terms: merging consecutive hops of one ISD, the ISD sequence of the path
+sent never returns to an ISD it has left (no ISD 0 among the hops) -/
+theorem never_propagate_isd_reentry (loc next : IA) (hops : List IA) (hnz : next â‰  (0, 0))
+    (h0 : âˆ€ ia âˆˆ hops ++ [loc] ++ [next], ia.isd â‰  0)
+    (h : shouldIgnore loc false hops next = false) :
+    (runsFrom 0 ((hops ++ [loc] ++ [next]).map IA.isd)).Nodup :=
+  (isdLoop_false_iff _ h0).1 (never_propagate_isd_loop loc next hops hnz h)
+
 /-- the input on which the unrepaired code propagated into an ISD loop is now ignored -/
 example : shouldIgnore (2, 100) false [(1, 100)] (1, 101) = true := by decide
 /-- and a beacon that already contains the local AS is ignored whatever the switch -/
